@@ -87,6 +87,9 @@ class PDFParser(PSStackParser[Union[PSKeyword, PDFStream, PDFObjRef, None]]):
                 except KeyError:
                     if settings.STRICT:
                         raise PDFSyntaxError("/Length is undefined: %r" % dic)
+                if not 0 <= objlen < 1 << 62:
+                    # a negative or absurdly large /Length: look for endstream
+                    objlen = 0
             self.seek(pos)
             try:
                 (_, line) = self.nextline()  # 'stream'
